@@ -15,6 +15,13 @@ CHECKS = {
  'C05': dict(level='model_checking', design='§4 C05',
              text='Same encoding as C04; after EVERY operation of every depth-4 (thorough 5) history the solver decides whether current_values, current_state, is_ended or the private time-in-state can differ from a reference animator written from the documented blend/pause/resume rules (the private state is read from the symbolic state: no hook). Counterexamples are replayed natively against a Rust reference that re-evaluates pristine timelines.',
              technique='symbolic execution of rustc MIR in lock-step with a reference model + SMT (z3)'),
+ 'C06': dict(level='model_checking', design='§4 C06',
+             text='Same symbolic animator encoding as C04: after every prefix of <=2 (thorough 3) operations in every configuration, the schedules advance(a);advance(b)[;advance(c)], advance(0) and advance(a);advance(0);advance(b) (a,b,c symbolic) are executed on the real MIR; the solver decides whether the final values or the accumulated time can differ from ONE evaluation at the accumulated Duration (nothing but the Duration carries over), and whether advance(0) changes anything. The Duration facts used (from_secs_f32(0)=ZERO; exact additivity on the 2^-9 s grid) are solver obligations on a bit-precise model of std try_from_secs!, itself diff-tested against std on every run.',
+             technique='symbolic execution of rustc MIR + SMT (z3 EUF/BV; cvc5/z3 QF_FPBV for the Duration lemmas)'),
+ 'C07': dict(level='model_checking', design='§4 C07',
+             text='Animator level: real MIR of is_ended / MergedTimeline::duration (max_by closure) / advance over abstract component durations (finite or +inf), every configuration x prefix: is_ended <=> no timeline or as_secs(time) >= max component duration; never true with an infinite component; stays true; values rest strictly past the end. Kernel level (real TimeScale MIR, all f32): what the position is when t >= duration() — the literal reading is a recorded known finding, the enforced bound is 2 ulp(duration()) in time.',
+             technique='symbolic execution of rustc MIR + SMT (z3 EUF/FP; cvc5/z3 portfolio for the time-scale kernel)',
+             note='as_secs_f32 monotone and finite is ASSUMED (L-dur), not proved; component timelines abstract (contract from C02); ' + TB),
  'C11': dict(level='proof', design='§4 C11',
              text='Bounded proof: for every non-identity insertion order of N<=3 (thorough 4) keyframes at symbolic distinct positions the timeline built by the real builder is compared with the one built in increasing order: structurally identical built values (boundary_times, time scale, every sub-timeline) discharge the obligation; otherwise both are evaluated symbolically at a symbolic time and the solver decides equality of update and metadata.',
              technique='symbolic execution of rustc MIR + structural equality / SMT (z3)'),
